@@ -226,6 +226,8 @@ class ParsedCommand(object):
         import numpy as np  # noqa
         if data is not None and np.isscalar(result):
             result = np.ones(data.shape) * result
+            if view is not None:
+                result = result[view]
 
         return result
 
